@@ -421,8 +421,20 @@ func (cl *vpClusterT) vpAttachRouting(rot int) {
 		pos[m.member.Name+"1"] = slot + 7
 		pos[m.member.Name] = slot + 6 // member key (orders the replica owners)
 	}
+	skew := rot >= n
 	for p := uint64(0); p < cl.parts; p++ {
-		pos[string([]byte{byte(p), 0, 0, 0, 0, 0, 0, 0})] = (p%uint64(n))*10 + 1
+		at := (p % uint64(n)) * 10
+		if skew {
+			// skewed layouts: partition 0 sits before the last ring slot, every other partition before the first
+			// one - the member in the first slot is loaded up to the bound, so when the member in the last slot
+			// goes away its partition wraps to the first slot and pushes the last partition on to the next member:
+			// a partition moves from one survivor to another, with the old owner still holding the data.
+			at = 0
+			if p == 0 {
+				at = uint64(n-1) * 10
+			}
+		}
+		pos[string([]byte{byte(p), 0, 0, 0, 0, 0, 0, 0})] = at + 1
 	}
 	ring := routingtable.VerifRingHasher{Pos: pos}
 	var live []discovery.Member
